@@ -89,7 +89,8 @@ let check_line (line : string) : unit =
           let pre = k ^ "=" in
           if String.length t > String.length pre && String.sub t 0 (String.length pre) = pre
           then String.sub t (String.length pre) (String.length t - String.length pre) else acc) "" (split_on ' ' head) in
-      let calls = List.map (fun s -> s.[0]) (split_on ',' (param "calls")) in
+      (* 'r' = RunNow::run_now on the dispatcher: specified to be dispatch *)
+      let calls = List.map (fun s -> if s.[0] = 'r' then 'd' else s.[0]) (split_on ',' (param "calls")) in
       let faults = if param "faults" = "-" then [] else List.map int_of_string (split_on ',' (param "faults")) in
       let mode = param "mode" in
       let toks = List.filter (fun t -> t <> "") (split_on ' ' prog_s) in
@@ -274,7 +275,7 @@ let check_line (line : string) : unit =
           end) calls;
       if faulty then begin
         let tr = parse_trace (get "TN") in
-        let nk = (let v = param "next" in if v = "" then 'd' else v.[0]) in
+        let nk = (let v = param "next" in if v = "" || v.[0] = 'r' then 'd' else v.[0]) in
         check_trace "TN" nk tr false;
         if get "PN" <> "-" then oracle "next_dispatch" 0;
         let probe = get "probeN" in
